@@ -234,7 +234,11 @@ class ExpressionParser:
             expected = self.check(_FIRST_EXP)
             right = None
             if expected:
-                right = self.parse_mult()
+                # Division is left-associative: only bind the next operand
+                if opType == TOKEN_TYPES.Divide:
+                    right = self.parse_exponent()
+                else:
+                    right = self.parse_mult()
 
             if not expected or right is None:
                 assert self._all_tokens is not None
